@@ -56,6 +56,8 @@ pub fn run_case(toks: &[&str], em: &mut Emitter) {
                 }
                 // from now on the transport hands out at most k bytes per read (0: whatever is asked for)
                 'C' => { s.pipe.0.borrow_mut().rcap = op[1..].parse().unwrap(); Ok(()) }
+                // the k-th frame written from now on is refused by the transport (once)
+                'Q' => { s.pipe.0.borrow_mut().fail_in = Some(op[1..].parse().unwrap()); Ok(()) }
                 // from now on the transport accepts at most k bytes per write (0: everything)
                 'S' => { s.pipe.0.borrow_mut().wcap = op[1..].parse().unwrap(); Ok(()) }
                 'T' => s.client.try_write(parse_event(&op[1..]).unwrap()).map_err(|_| ()),
@@ -82,7 +84,10 @@ pub struct Gen<'a> { pub r: &'a mut Rng, pub share: u32 }
 fn caps_sample(r: &mut Rng) -> Vec<Vec<u8>> {
     let mut v = vec![];
     // general (valid), pointer, an unknown type, a known type with a short body, multifragment
-    v.push(refsrv::cap(1, &[1, 0, 3, 0, 0, 2, 0, 0, 0, 0, 0x1d, 4, 0, 0, 0, 0, 0, 0, 1, 1]));
+    // the server's own general capability set: any extraFlags (with and without FASTPATH_OUTPUT_SUPPORTED,
+    // NO_BITMAP_COMPRESSION_HDR …), or none at all — what the client delivers does not depend on it
+    let ef = *r.pick(&[0x041du16, 0x041d, 0x0404, 0x0000, 0x0400, 0x0001, 0xfffe, 0xffff]);
+    if !r.chance(1, 8) { v.push(refsrv::cap(1, &[1, 0, 3, 0, 0, 2, 0, 0, 0, 0, ef as u8, (ef >> 8) as u8, 0, 0, 0, 0, 0, 0, 1, 1])); }
     if r.chance(1, 2) { v.push(refsrv::cap(8, &[0, 0, 20, 0])); }
     if r.chance(1, 2) { v.push(refsrv::cap(0x1d, &r.bytes(5))); }
     if r.chance(1, 3) { v.push(refsrv::cap(0x0f, &[1])); }
@@ -171,6 +176,22 @@ pub fn generate_c12(thorough: bool, seed: u64, part: (usize, usize), em: &mut Em
         }
     }
     if part.0 == 0 {
+        // a transport fault at the k-th write of the client's answer to a demand-active: the call fails, the
+        // server repeats its demand-active, which is answered in full; the session then activates and takes input.
+        // Also a fault under an input PDU in the active state (model correspondence only: no alphabet oracle)
+        for k in 1..=6u32 {
+            let mut g = Gen { r: &mut r, share: 0x000103ea };
+            let mut ops = vec![format!("Q{}", k)];
+            let (da, _) = g.letter(0);
+            ops.push(da.clone()); ops.push(da);
+            for l in &[1u64, 2, 3, 5] { ops.push(g.letter(*l).0); }
+            ops.push("P3:4:1:1".into()); ops.push("Q1".into()); ops.push("K30:1".into()); ops.push("K30:0".into());
+            // a re-activation hit by the same fault
+            ops.push(g.letter(8).0); ops.push(format!("Q{}", 1 + k % 5)); let (da2, _) = g.letter(0); ops.push(da2.clone()); ops.push(da2);
+            for l in &[1u64, 2, 3, 5] { ops.push(g.letter(*l).0); }
+            ops.push("P5:6:0:0".into());
+            emit(em, 1004, 800, 600, 0x409, "rdp-rs", &ops, None);
+        }
         // demand-active PDUs of 100..300 and > 255 bytes (the MCS length changes form at 128 and 256),
         // font maps whose mapFlags are not the usual 0x0003
         for extra in (0usize..220).step_by(7).chain([1000usize, 5000].iter().cloned()) { for mf in &[3u16, 0, 1, 2] {
